@@ -4,7 +4,7 @@ CONSTANTS
   Consumers = {"k1", "k2"}
   Prios = {0, 9}
   MaxOps = 4
-  Dev = {}
+  Dev = {"prune_no_close"}
 CONSTRAINT bound
 INVARIANTS NoLostWakeup PrioConserved EntryIffWanted
 CHECK_DEADLOCK FALSE
